@@ -16,6 +16,11 @@ def cases(tier, seed):
         A = X.random_fst(rng, names=('q0', 'q1', 'q2') if rng.random() < 0.8 else ('star', 'q0', 'star0'))
         B = X.random_fst(rng, names=('q0', 'q1', 'q2') if rng.random() < 0.7 else ('r0', 'q00', 'q1'))
         yield {'kind': 'fst', 'A': X.to_json(A), 'B': X.to_json(B), 'same': rng.random() < 0.05}
+    # output symbols whose concatenations coincide ('x','xy' / 'xx','y'): output words are sequences of symbols, not their joined text
+    OUT = ('x', 'xx', 'xy', 'y', 'yx')
+    for i in range(n // 2):
+        A = X.random_fst(rng, out=OUT); B = X.random_fst(rng, out=OUT)
+        yield {'kind': 'fst', 'A': X.to_json(A), 'B': X.to_json(B), 'same': False}
     for i in range(n // 3):
         R = F.random_enfa(rng, rng.choice([1, 2, 3]), ['a', 'b'][:rng.choice([1, 2])], eps=rng.random() < 0.6)
         yield {'kind': 'to_fst', 'R': F.to_json(fa_gen.rename(R, rng.choice(['int', 'str'])))}
